@@ -145,6 +145,7 @@ Proof.
   - now apply NoDup_akeys_adel.
   - intros x Hx1 Hx2. rewrite amem_adel in Hx1. apply andb_true_iff in Hx1.
     destruct Hx1 as [N Hx1]. apply negb_true_iff, Z.eqb_neq in N.
+    rewrite memz_remz in Hx2. apply andb_true_iff in Hx2. destruct Hx2 as [_ Hx2].
     specialize (HG x Hx1 Hx2). unfold gh_ok in *. sproj.
     rewrite !alookup_adel_neq by auto. exact HG.
 Qed.
@@ -233,7 +234,7 @@ Proof.
     cbn [fold_left] in *.
     pose proof (okwf_fold_mono _ _ _ Hwf) as Hwf1.
     destruct (exec_sim _ _ _ _ _ _ _ _ _ _ HI HR Hk Hnth Hrun Hwf1)
-      as (Hwf4 & b1 & HI1 & HR1 & Ho & Hd & H08 & Hsk & HL1).
+      as (Hwf4 & b1 & HI1 & HR1 & Ho & Hd & H08 & HL1).
     rewrite (sp_exec_unfold _ _ _ _ _ _ _ Hnth) in *.
     set (k := zget (pcs s) g) in *.
     assert (HG1 : RelG s1 (sp_actions (exec_pre t g k outs acts) acts outs) f).
@@ -421,7 +422,7 @@ Proof.
     apply andb_true_iff in Hwf. destruct Hwf as [_ Hwf].
     destruct (run (c_scripts c) st0 (c_trace c)) as [s|] eqn:Er; [|discriminate].
     destruct (run_sim _ _ _ _ _ _ Inv0 Rel0 Er Hwf) as (b & HI & HR & _ & H09).
-    destruct (H09 Hk NoLeak0) as [L _].
+    destruct (H09 NoLeak0) as [L _].
     pose proof (run_g _ _ _ _ _ _ Inv0 Rel0 RelG0 Er Hwf) as HG.
     apply subz_In. intros x Hx. apply (held_sub s _ b); auto.
     apply (proj1 (subz_In _ _) Ha). exact Hx.
